@@ -160,6 +160,16 @@ class Scipy(AbstractIntegrator):
         y1 = copy.deepcopy(self.y0)
         for _ in range(max_steps):
             y2 = integ.integrate(t)
+            # Return code -1 only says that the step budget of one call is used up: the
+            # state reached so far is valid and the call can be repeated
+            for _ in range(max_steps):
+                if integ.get_return_code() != -1 or not bool(np.isfinite(y2).all()):
+                    break
+                y2 = integ.integrate(t)
+            # A solver that gave up, or a state that left the floating point range, is
+            # no steady state, however little it changes from here on
+            if integ.get_return_code() < 0 or not bool(np.isfinite(y2).all()):
+                return Result(IntegrationFailure())
             diff = (y2 - y1) / y1 if rel_norm else y2 - y1
             if np.linalg.norm(diff, ord=2) < tolerance:
                 self.t0 = t
